@@ -41,6 +41,28 @@ def swapFails (x : Int) (ratio : Int) (si so : Nat) (b m : Int) : List Fail :=
 /-- total ERC20 supply of contract `c` -/
 def evmTotal (s : State) (c : Nat) : Nat := AMap.sumIf (fun k => k.1 = c) id s.evm
 
+/-- the ledgers an accepted EVM transaction with these `SwapToNative` logs must leave: every log
+of a contract of ours burned `amount` of the caller's ERC20 balance; when that contract — the
+**emitter** of the log, not the target of the transaction — is bound to a token, exactly `amount`
+of the token's min unit is minted to the receiver named in the log; logs of other addresses move
+nothing -/
+def expectLogs (s : State) : List SwapLog → State
+  | [] => s
+  | l :: rest =>
+    match l.emitter with
+    | .u _ => expectLogs s rest
+    | .k c =>
+      let burnt : State := { s with evm := AMap.set s.evm (c, l.src) (evmBal s c l.src - l.amount.toNat) }
+      match (AMap.get? s.contracts c).bind (AMap.get? s.tokens) with
+      | none => expectLogs burnt rest
+      | some t => expectLogs { burnt with bank := burnt.bank.mint l.to t.minUnit l.amount.toNat } rest
+
+/-- native supply + ERC20 supply of every bound token of `pre` is the same in `post` -/
+def combinedSame (pre post : State) : Bool :=
+  pre.tokens.all fun e =>
+    e.2.contract == 0 ||
+    supplyOf post e.2.minUnit + evmTotal post e.2.contract == supplyOf pre e.2.minUnit + evmTotal pre e.2.contract
+
 /-- what an accepted conversion must have done -/
 def acceptedFails (pre : State) (op : Op) (post : State) : List Fail :=
   match op with
@@ -103,6 +125,12 @@ def acceptedFails (pre : State) (op : Op) (post : State) : List Fail :=
           chk (balsSameExcept pre post [(sender, denom), (rcpt, target)] && supsSameExcept pre post [denom, target]) "swap-other-native" ++
           chk (evmSameExcept pre post []) "swap-erc20-unchanged" ++
           chk (tokensSameExcept pre post "") "swap-tokens"
+  | .evmTx _ logs =>
+    let exp := expectLogs pre logs
+    chk (combinedSame pre post) "native-plus-erc20" ++
+    chk (bankSame exp post) "tx-native-credited-exactly" ++
+    chk (evmSameExcept exp post []) "tx-erc20-debited-exactly" ++
+    chk (tokensSameExcept pre post "") "tx-tokens"
   | .deploy .. => chk (bankSame pre post && evmSameExcept pre post []) "deploy-ledgers-unchanged"
   | .evmFault _ => chk (bankSame pre post && evmSameExcept pre post []) "fault-ledgers-unchanged"
   | _ => chk (evmSameExcept pre post []) "erc20-untouched"
